@@ -47,7 +47,7 @@ ALL_OPS = [
     "set_cell", "set_cell", "set_value", "insert_cell", "append_cell", "delete_cell",
     "set_row", "insert_row", "append_row", "delete_row", "set_row_values", "set_values",
     "insert_column", "append_column", "set_column", "delete_column", "set_column_cells",
-    "transpose", "rstrip", "optimize_width", "csv", "extend_rows", "clear",
+    "transpose", "rstrip", "optimize_width", "csv", "extend_rows", "clear", "transpose_area",
 ]
 OPS = list(ALL_OPS)  # a check may narrow / re-weight this before generate()
 
@@ -96,6 +96,12 @@ def rand_op(rng, state, maxn=4):
         return {"op": "clear"} if rng.random() < 0.25 else {"op": "append_row", "r": rand_row(rng), "n": n}
     if kind == "extend_rows":
         return {"op": kind, "rs": [{"r": rand_row(rng), "n": rng.choice([1, 1, 2, maxn])} for _ in range(rng.randint(0, 3))]}
+    if kind == "transpose_area":
+        if not w or not h:
+            return {"op": "transpose"}
+        x0 = rng.randint(0, w - 1)
+        y0 = rng.randint(0, h - 1)
+        return {"op": kind, "x": x0, "y": y0, "z": rng.randint(x0, w), "t": rng.randint(y0, h)}
     if kind in ("transpose", "optimize_width", "csv"):
         return {"op": kind}
     return {"op": "rstrip", "c": rng.choice((0, 1))}
